@@ -153,6 +153,74 @@ func checkC04(c *an.Ctx) {
 			c.Bad("C04.3", an.Short(f)+":"+op.Kind+"("+groupKey(op.OnVal)+")", op.Instr.Pos(), "the stage goroutine synchronises on %s %s before its task runs: eligible stages can be serialised", op.Kind, op.On)
 		}
 	}
+	// helpers called before the runner call that are not themselves on the way to it: a wait inside them, or a
+	// lock they still hold when they return (taken for the duration of the run), serialises the stages as well
+	onWaySet := map[*ssa.Function]bool{}
+	for _, f := range bfns {
+		if f == s.body || f == s.runStage {
+			onWaySet[f] = true
+			continue
+		}
+		for g := range p.Reach([]*ssa.Function{f}, func(e an.CallEdge) bool { return e.Kind != an.EdgeGo && an.InModule(e.Callee) }) {
+			if g == s.runStage {
+				onWaySet[f] = true
+			}
+		}
+	}
+	for _, f := range bfns {
+		if !onWaySet[f] {
+			continue
+		}
+		var rcs []ssa.CallInstruction
+		if f == s.body {
+			rcs = s.runnerCalls
+		} else {
+			rcs = an.CallsIn(f, fnRunnerRun)
+		}
+		an.EachInstr(f, func(in ssa.Instruction) {
+			call, ok := in.(*ssa.Call)
+			if !ok {
+				return
+			}
+			for _, rc := range rcs {
+				if an.Dominates(rc, call) {
+					return
+				}
+			}
+			for _, callee := range p.Callees(&call.Call) {
+				if onWaySet[callee] || callee.Pkg != s.schedule.Pkg || callee == s.schedule {
+					continue
+				}
+				for g := range p.Reach([]*ssa.Function{callee}, func(e an.CallEdge) bool {
+					return e.Kind == an.EdgeCall && an.InModule(e.Callee) && e.Callee.Pkg == s.schedule.Pkg && !onWaySet[e.Callee] && e.Callee != s.schedule
+				}) {
+					for _, op := range an.BlockingOps(g) {
+						switch op.Kind {
+						case "sleep":
+							continue
+						case "lock", "rlock":
+							released := false
+							for _, ci := range an.CallsIn(g, "(*sync.Mutex).Unlock", "(*sync.RWMutex).Unlock", "(*sync.RWMutex).RUnlock") {
+								if _, isCall := ci.(*ssa.Call); !isCall {
+									if _, isDefer := ci.(*ssa.Defer); !isDefer {
+										continue
+									}
+								}
+								if an.SameValue(ci.Common().Args[0], op.OnVal) || (an.FieldKey(op.OnVal) != "" && an.FieldKey(ci.Common().Args[0]) == an.FieldKey(op.OnVal)) {
+									released = true
+								}
+							}
+							if released {
+								continue
+							}
+						}
+						badSync = true
+						c.Bad("C04.3", an.Short(g)+":"+op.Kind+"("+groupKey(op.OnVal)+")", op.Instr.Pos(), "%s, called by the stage goroutine before its task runs, %s on %s %s: eligible stages can be serialised", an.Short(g), map[bool]string{true: "returns holding the lock", false: "waits"}[op.Kind == "lock" || op.Kind == "rlock"], op.Kind, op.On)
+					}
+				}
+			}
+		})
+	}
 	if !badSync {
 		c.OK("C04.3", an.Short(s.body)+":pre-run", s.body.Pos(), "no lock, channel operation or wait between the start of the stage goroutine and Runner.Run (%d functions)", len(bfns))
 	}
